@@ -112,7 +112,7 @@ func TestPropPrograms(t *testing.T) {
 func TestPropProgramsNoErrors(t *testing.T) {
 	// the same generator without deliberate errors: long successful executions
 	vk.Rapid(t, subProgram, vk.N(1500, 12000), func(t *rapid.T) gen.Program {
-		return gen.Generate(t, gen.Config{MaxStmts: 60, ErrRate: 0})
+		return gen.Generate(t, gen.Config{MaxStmts: 60, ErrRate: 0, BigConsts: true})
 	})
 }
 
